@@ -149,12 +149,11 @@ def judge_member_kind(case, obs):
     dbg, _, disp = image.rpartition(" | ")
     if disp != text:
         v.bad("C08/member-kind/print", "member type %r prints back as %r" % (text, disp))
+    # How the parser classified the text (struct reference or atom) is visible only through the debug form, whose shape is an
+    # implementation detail: recorded as an observation class, never judged here. A misclassification changes encodeType /
+    # the accepted values and is judged through the public API (C08 digests, C09 refusals).
     ref = eip712.struct_ref(text)
-    # a struct reference shows its (quoted) name in the debug image; atoms never contain a quote
-    if ref is not None and ('"%s"' % ref) not in dbg:
-        v.bad("C08/member-kind/struct-taken-as-atom", "member type %r (struct %s) parsed as %s" % (text, ref, dbg))
-    if ref is None and '"' in dbg:
-        v.bad("C08/member-kind/atom-taken-as-struct", "member type %r parsed as %s" % (text, dbg))
+    v.bucket("hook-member-kind-struct-ref" if ref is not None else "hook-member-kind-atom")
     return v.bucket("hook-member-kind")
 
 
